@@ -9,9 +9,14 @@
     Statements only.  The specification side (head records [resp_head] / [req_head], [render_*],
     [wf_*], [headers_of], [complete_fields]) is proofs/C05_spec.v and is written without reference
     to the parser; the proofs are in proofs/C05_stable.v, C05_roundtrip.v, C20_proofs.v.
-    All statements are for unbounded inputs; [slots : nat] is the caller's field limit. *)
+    All statements are for unbounded inputs; [slots : nat] is the caller's field limit.
+    The second half of the file (after review 2: proofs/C20_more.v, C20_present.v, C20_partial_spec.v,
+    C05_hmap.v, C05_rfc_bytes.v) adds: the partial parser on ARBITRARY input (every reported field is a
+    complete line of the input; reports only grow), the request parser on methods outside http's
+    table, and the byte classes / well-formedness written from the RFCs. *)
 From Hoot Require Import Base Httparse Parser.
 From Hoot.proofs Require Import C05_stable C05_spec C05_roundtrip C20_proofs C05_proofs C05_examples.
+From Hoot.proofs Require Import C05_hmap C05_rfc_bytes C20_more C05_more C20_partial_spec C20_present.
 Open Scope N_scope.
 
 (** ** The central lemma, for ARBITRARY bytes [b], [x] (not only well-formed heads): a verdict of
@@ -180,6 +185,186 @@ Example c20_partial_nonvacuous :
     Ok (Some {| rs_version := 1; rs_status := 200; rs_headers := [ (s2b "set-cookie", [s2b "a=1"]) ] |}).
 Proof. vm_compute. repeat split. Qed.
 
+(** * Strengthening after review 2 (proofs/C20_more.v, C05_hmap.v, C05_rfc_bytes.v) *)
+
+(** ** The partial parser *)
+
+(** The strong form of [c20_partial_sound]: "nothing yet" is answered only when NO field line is complete in the
+    input (so a parser that always answers "nothing yet" does not satisfy it); otherwise the report is the head's
+    version, status and exactly the complete fields (up to the first empty-valued one). *)
+Theorem c20_partial_sound_strong : forall slots h p x,
+  wf_resp_head h -> render_response_head h = p ++ x ->
+  (List.length (complete_fields h p) <= slots)%nat ->
+  (try_parse_partial_response slots p = Ok None /\ complete_fields h p = []) \/
+  try_parse_partial_response slots p = Ok (Some (partial_response_of h (complete_fields h p))).
+Proof. exact partial_response_sound_strong. Qed.
+
+(** "Never reports a field that is not completely present", for ARBITRARY bytes [b], [x], at the wrapper: once a
+    response has been reported after [b], then after [b ++ x] the parser either refuses the input (the new bytes
+    were malformed) or reports the same version and status and a field list that extends the earlier one ([hs],
+    then [hs ++ t]).  Later bytes never retract or alter what was reported: it was complete. *)
+Theorem c20_partial_wrapper_mono : forall slots b x r,
+  try_parse_partial_response slots b = Ok (Some r) ->
+  (exists e, try_parse_partial_response slots (b ++ x) = Err e) \/
+  (exists r' hs t,
+     try_parse_partial_response slots (b ++ x) = Ok (Some r') /\
+     rs_version r' = rs_version r /\ rs_status r' = rs_status r /\
+     rs_headers r = hm_of_list hs /\ rs_headers r' = hm_of_list (hs ++ t)).
+Proof. exact partial_wrapper_mono. Qed.
+
+(** The same without [hm_of_list]: every name keeps its values, in order, possibly with more after them; iterating
+    yields the earlier fields and the new ones. *)
+Theorem c20_partial_wrapper_mono_values : forall slots b x r r',
+  try_parse_partial_response slots b = Ok (Some r) ->
+  try_parse_partial_response slots (b ++ x) = Ok (Some r') ->
+  rs_version r' = rs_version r /\ rs_status r' = rs_status r /\
+  exists t, (forall k, hm_get_all (rs_headers r') k = hm_get_all (rs_headers r) k ++ map snd (fields_named k t)) /\
+            Permutation.Permutation (hm_iter (rs_headers r')) (hm_iter (rs_headers r) ++ map norm_header t).
+Proof. exact partial_wrapper_mono_values. Qed.
+
+Theorem c20_partial_wrapper_not_none : forall slots b x r,
+  try_parse_partial_response slots b = Ok (Some r) -> try_parse_partial_response slots (b ++ x) <> Ok None.
+Proof. exact partial_wrapper_not_none. Qed.
+
+(** ** The request parser and methods outside http's table *)
+
+(** A well-formed head (httparse's view) whose method has a byte outside http's METHOD_CHARS: RequestInvalidMethod ... *)
+Theorem c20_request_bad_method : forall slots h rest,
+  wf_req_head h -> forallb is_http_method_char (qh_method h) = false ->
+  (List.length (qh_fields h) <= slots)%nat ->
+  try_parse_request slots (render_request_head h ++ rest) = Err RequestInvalidMethod.
+Proof. exact request_bad_method. Qed.
+
+(** ... so the method premise of [c20_request_complete] is exact. *)
+Theorem c20_request_complete_iff : forall slots h rest,
+  wf_req_head h -> (List.length (qh_fields h) <= slots)%nat ->
+  (try_parse_request slots (render_request_head h ++ rest) = Ok (Some (len (render_request_head h), request_of h))
+   <-> forallb is_http_method_char (qh_method h) = true).
+Proof. exact request_complete_iff. Qed.
+
+(** In RFC terms (proofs/C05_rfc_bytes.v: [rfc_wf_req_head] has method = token = 1*tchar, written from RFC 9110): the
+    byte classes used by [wf_req_head] / [wf_field] are the RFC ones, http's method table is [tchar] minus the five
+    characters  # $ % & ' , and an RFC-well-formed request is refused exactly when its method contains one of them. *)
+Theorem c20_method_table_gap : forall b, rfc_tchar b = is_http_method_char b || one_of "#$%&'" b.
+Proof. exact http_method_char_gap. Qed.
+
+Theorem c20_method_bytes_table : forall b, is_method_token b && negb (b =? 32) = rfc_VCHAR b.
+Proof. exact method_token_is_vchar. Qed.
+
+Theorem c20_target_bytes_table : forall b, is_uri_token b = rfc_VCHAR b && negb (one_of "<>" b).
+Proof. exact uri_token_is_vchar. Qed.
+
+Theorem c20_rfc_wf_request : forall h, rfc_wf_req_head h -> wf_req_head h.
+Proof. exact rfc_wf_req_head_wf. Qed.
+
+Theorem c20_rfc_wf_response : forall h, rfc_wf_resp_head h -> wf_resp_head h.
+Proof. exact rfc_wf_resp_head_wf. Qed.
+
+Theorem c20_rfc_request_method : forall slots h rest,
+  rfc_wf_req_head h -> (List.length (qh_fields h) <= slots)%nat ->
+  (existsb (one_of "#$%&'") (qh_method h) = true ->
+     try_parse_request slots (render_request_head h ++ rest) = Err RequestInvalidMethod) /\
+  (existsb (one_of "#$%&'") (qh_method h) = false ->
+     try_parse_request slots (render_request_head h ++ rest) = Ok (Some (len (render_request_head h), request_of h))).
+Proof. exact rfc_request_method. Qed.
+
+(** ** Non-vacuity of the additions *)
+
+(** [odd_method_request] is  A#B /x HTTP/1.1 / Host: h : well-formed by the RFC grammar, refused by http. *)
+Example c20_bad_method_nonvacuous :
+  rfc_wf_req_head odd_method_request /\ wf_req_head odd_method_request /\
+  forallb rfc_tchar (qh_method odd_method_request) = true /\
+  forallb is_http_method_char (qh_method odd_method_request) = false /\
+  try_parse_request 4 (render_request_head odd_method_request ++ s2b "zz") = Err RequestInvalidMethod /\
+  try_parse_request 4 (take 10 (render_request_head odd_method_request)) = Ok None.
+Proof.
+  split; [exact odd_method_request_rfc_wf|]. split; [exact (rfc_wf_req_head_wf _ odd_method_request_rfc_wf)|].
+  vm_compute. repeat split.
+Qed.
+
+(** Monotonicity on bytes that are NOT a prefix of a well-formed head in the sense of [wf_resp_head] (bare LF line
+    ends):  "HTTP/1.1 200 OK<LF>A:1<LF>b: 2<CR><LF>A: 3"  reports a:1, b:2 (the last line is incomplete); with
+    "<CR><LF>C:4<LF><LF>rest" appended it reports a:1,3 b:2 c:4; with a NUL appended it is refused. *)
+Example c20_partial_mono_nonvacuous :
+  let b := s2b "HTTP/1.1 200 OK" ++ [10] ++ s2b "A:1" ++ [10] ++ s2b "b: 2" ++ [13; 10] ++ s2b "A: 3" in
+  let x := [13; 10] ++ s2b "C:4" ++ [10; 10] ++ s2b "rest" in
+  try_parse_partial_response 8 b =
+    Ok (Some {| rs_version := 1; rs_status := 200; rs_headers := [ ([97], [[49]]); ([98], [[50]]) ] |}) /\
+  try_parse_partial_response 8 (b ++ x) =
+    Ok (Some {| rs_version := 1; rs_status := 200;
+                rs_headers := [ ([97], [[49]; [51]]); ([98], [[50]]); ([99], [[52]]) ] |}) /\
+  try_parse_partial_response 8 (b ++ [0]) = Err HttpParseFail.
+Proof. vm_compute. repeat split. Qed.
+
+(** [c20_partial_view] and the early-limit theorems on [demo_head] / [demo_request] (the review found no example):
+    two complete lines and 3 bytes of the third; the third line complete with 2 slots, then garbage. *)
+Example c20_view_limit_nonvacuous :
+  next_line (rh_fields demo_head) 2 = s2b "Set" ++ drop 3 (next_line (rh_fields demo_head) 2) /\
+  parse_response 5 (render_status_line demo_head ++ render_lines (firstn 2 (rh_fields demo_head)) ++ s2b "Set") =
+    (SPartial, response_view demo_head (firstn 2 (rh_fields demo_head))) /\
+  try_parse_response 2 (render_status_line demo_head ++ render_lines (firstn 2 (rh_fields demo_head)) ++
+                        render_field (nth 2 (rh_fields demo_head) {| f_name := []; f_ows1 := []; f_value := []; f_ows2 := [] |}) ++
+                        [0; 255]) = Err HttpParseTooManyHeaders /\
+  try_parse_request 1 (render_request_line demo_request ++ render_lines (firstn 1 (qh_fields demo_request)) ++
+                       render_field (nth 1 (qh_fields demo_request) {| f_name := []; f_ows1 := []; f_value := []; f_ows2 := [] |}) ++
+                       [0; 255]) = Err HttpParseTooManyHeaders.
+Proof. vm_compute. repeat split. Qed.
+
+(** ** The partial parser's report without model functions.  [fields_before_empty] (proofs/C20_partial_spec.v) are the
+    fields before the first empty-valued one (where the code under test stops copying); [fields_called k] /
+    [norm_field] as in C05.  Whatever is reported on a prefix [p] of a well-formed head is the head's version and
+    status and, for every name, the values of exactly the complete fields of that name, in order. *)
+Theorem c20_partial_reports : forall slots h p x r,
+  wf_resp_head h -> render_response_head h = p ++ x ->
+  (List.length (complete_fields h p) <= slots)%nat ->
+  try_parse_partial_response slots p = Ok (Some r) ->
+  rs_version r = rh_version h /\ rs_status r = rh_status h /\
+  (forall k, hm_get_all (rs_headers r) k =
+             map f_value (fields_called k (fields_before_empty (complete_fields h p)))) /\
+  Permutation.Permutation (hm_iter (rs_headers r)) (map norm_field (fields_before_empty (complete_fields h p))).
+Proof. exact partial_response_reports. Qed.
+
+Example c20_partial_reports_nonvacuous :
+  fields_before_empty (complete_fields demo_head (render_response_head demo_head)) = firstn 1 (rh_fields demo_head) /\
+  hm_get_all (rs_headers (partial_response_of demo_head (rh_fields demo_head))) (s2b "set-cookie") = [s2b "a=1"].
+Proof. vm_compute. repeat split. Qed.
+
+(** ** "Never reports a field that is not completely present in its input", literally and for ARBITRARY input.
+    [field_line (name, v) l] (proofs/C20_present.v, over the RFC byte classes):
+      l = name ":" ws1 v ws2 eol,  name = 1*tchar, ws1 / ws2 = *( SP / HTAB ), v made of field-content bytes,
+      eol = CRLF or a bare LF (which the code under test accepts).
+    For every field (k, v) the partial parser reports, the input contains such a line, as one contiguous block,
+    with [k] the lower-cased name. *)
+Theorem c20_partial_field_present : forall slots b r k v,
+  try_parse_partial_response slots b = Ok (Some r) -> In (k, v) (hm_iter (rs_headers r)) ->
+  exists name l pre post, k = lower name /\ b = pre ++ l ++ post /\ field_line (name, v) l.
+Proof. exact partial_field_present. Qed.
+
+(** All at once: the reported map is built from (a prefix of) a list of fields whose lines follow one another in
+    the input. *)
+Theorem c20_partial_lines_present : forall slots b r,
+  try_parse_partial_response slots b = Ok (Some r) ->
+  exists hs pre lines post,
+    rs_headers r = hm_of_list (until_empty_value hs) /\
+    b = pre ++ concat lines ++ post /\ Forall2 field_line hs lines.
+Proof. exact partial_lines_present. Qed.
+
+Example c20_partial_present_nonvacuous :
+  let b := s2b "HTTP/1.1 200 OK" ++ [10] ++ s2b "A:1" ++ [10] ++ s2b "b: 2" ++ [13; 10] ++ s2b "A: 3" in
+  (exists r, try_parse_partial_response 8 b = Ok (Some r) /\
+             In (s2b "a", s2b "1") (hm_iter (rs_headers r)) /\ In (s2b "b", s2b "2") (hm_iter (rs_headers r)) /\
+             ~ In (s2b "a", s2b "3") (hm_iter (rs_headers r))) /\
+  field_line (s2b "A", s2b "1") (s2b "A:1" ++ [10]) /\
+  field_line (s2b "b", s2b "2") (s2b "b: 2" ++ [13; 10]).
+Proof.
+  split; [eexists; split; [vm_compute; reflexivity|]|].
+  - split; [left; reflexivity|]. split; [right; left; reflexivity|].
+    intros [H|[H|[]]]; discriminate.
+  - split.
+    + exists [], [], [10]. repeat split; try reflexivity; try discriminate. right; reflexivity.
+    + exists [32], [], [13; 10]. repeat split; try reflexivity; try discriminate. left; reflexivity.
+Qed.
+
 Print Assumptions c20_hp_stable_request.
 Print Assumptions c20_request_consumed_le.
 Print Assumptions c20_response_complete.
@@ -200,3 +385,23 @@ Print Assumptions c20_partial_view.
 Print Assumptions c20_response_nonvacuous.
 Print Assumptions c20_request_nonvacuous.
 Print Assumptions c20_partial_nonvacuous.
+Print Assumptions c20_partial_sound_strong.
+Print Assumptions c20_partial_wrapper_mono.
+Print Assumptions c20_partial_wrapper_mono_values.
+Print Assumptions c20_partial_wrapper_not_none.
+Print Assumptions c20_request_bad_method.
+Print Assumptions c20_request_complete_iff.
+Print Assumptions c20_method_table_gap.
+Print Assumptions c20_method_bytes_table.
+Print Assumptions c20_target_bytes_table.
+Print Assumptions c20_rfc_wf_request.
+Print Assumptions c20_rfc_wf_response.
+Print Assumptions c20_rfc_request_method.
+Print Assumptions c20_bad_method_nonvacuous.
+Print Assumptions c20_partial_mono_nonvacuous.
+Print Assumptions c20_view_limit_nonvacuous.
+Print Assumptions c20_partial_reports.
+Print Assumptions c20_partial_reports_nonvacuous.
+Print Assumptions c20_partial_field_present.
+Print Assumptions c20_partial_lines_present.
+Print Assumptions c20_partial_present_nonvacuous.
